@@ -196,11 +196,10 @@ func (c gwConfig) render(via string) (yaml string, env []string) {
 				toEnv = false // a scalar with blanks would be split into a list
 			}
 			if toEnv {
-				sect := strings.ToUpper(e.sect)
-				if e.sect == "OpenId" {
-					sect = "OPEN_ID" // ToCamel needs the underscore to produce the section name "OpenId"
-				}
-				env = append(env, "RDPGW_"+sect+"__"+strings.ToUpper(e.key)+"="+v)
+				// ToCamel turns "caps.token_auth" into "Caps.TokenAuth": the underscores must sit at the
+				// camel-case boundaries, otherwise the variable becomes a second, differently-cased key
+				// next to the default and which of the two wins is decided by Go's map order
+				env = append(env, "RDPGW_"+upperSnake(e.sect)+"__"+upperSnake(e.key)+"="+v)
 				continue
 			}
 		}
@@ -231,4 +230,16 @@ func writeKerberosFiles(dir string, kdcs []string) (keytabPath, confPath string)
 	confPath = filepath.Join(dir, "krb5.conf")
 	os.WriteFile(confPath, []byte(conf), 0o600)
 	return
+}
+
+// upperSnake: "TokenAuth" -> "TOKEN_AUTH", "OpenId" -> "OPEN_ID", "VerifyClientIp" -> "VERIFY_CLIENT_IP".
+func upperSnake(s string) string {
+	var b strings.Builder
+	for i, r := range s {
+		if i > 0 && r >= 'A' && r <= 'Z' {
+			b.WriteByte('_')
+		}
+		b.WriteRune(r)
+	}
+	return strings.ToUpper(b.String())
 }
